@@ -220,6 +220,7 @@ theorem factorizedPW_reproduces {B : Type} [Sub B] (F : Fn K) (habs : ∀ t, F.a
   apply factorized_reproduces _ _ n x f a (pieceWise1D_even F 0 habs n _) hev2 hs k hk
   left; simp only [pieceWise1D, sub_self, h0]
 
+omit [CommRing K] in
 /-- the adaptated model has the covariance of the original one -/
 theorem adaptator_even {V : Type} [Sub V] (M : KModel V K) (n : ℕ) (x : ℕ → V) (h : EvenOn M n x) :
     EvenOn (adaptator M) n x := h
@@ -247,9 +248,11 @@ theorem gen_covPW (c c3 : K) (fn : Fns K) (ν v : K) :
 theorem gen_cov3D (c c3 : K) (fn : Fns K) (ν v0 v1 v2 : K) :
     Gen.cov3D_r c c3 fn v0 v1 v2 = (default3D (fnOf fn) ν).cov ⟨v0, v1, v2⟩ := rfl
 
+variable [LinearOrder K]
+
 /-- the two traces of the 2D covariance (one per outcome of `h2 < 10*eps`) cover every input and
 each agrees with the model on its path -/
-theorem gen_cov2D [LinearOrder K] (c c3 : K) (fn : Fns K) (ν v0 v1 : K) :
+theorem gen_cov2D [IsStrictOrderedRing K] (c c3 : K) (fn : Fns K) (ν v0 v1 : K) :
     (Gen.cov2D_far_path c c3 fn v0 v1 ∨ Gen.cov2D_near_path c c3 fn v0 v1) ∧
     (Gen.cov2D_far_path c c3 fn v0 v1 →
       Gen.cov2D_far_r c c3 fn v0 v1 = (default2D (fnOf fn) ν).cov ⟨v0, v1⟩) ∧
@@ -294,7 +297,7 @@ theorem gen_drifts (c c3 : K) (fn : Fns K) (ν v0 v1 v2 : K) :
        (adaptator (default3D (fnOf fn) ν)).drift 1 ⟨v0, v1, v2⟩,
        (adaptator (default3D (fnOf fn) ν)).drift 2 ⟨v0, v1, v2⟩]) := by
   refine ⟨?_, ?_, ?_, ?_, ?_, ?_, ?_⟩ <;>
-    simp [gen_simp, default1D, default2D, default3D, pieceWise1D, adaptator] <;> norm_num
+    simp [gen_simp, default1D, default2D, default3D, pieceWise1D, adaptator]
 
 /-- the default nugget is `0` ("built without a nugget") and `setNuggetEffect(ν)` makes it `ν`
 at every point -/
